@@ -152,6 +152,116 @@ func (e *emitter) c14AcceptSentinels(s *source, rel string) {
 	e.stringList("acceptSentinels", "sentinels `acceptable` passes to errorx.In", out)
 }
 
+var c14Space = regexp.MustCompile(`\s+`)
+
+func c14Flat(src string) string { return strings.TrimSpace(c14Space.ReplaceAllString(src, " ")) }
+
+// c14Wiring emits what ties an entry point to the next function on the property's path: every `return`
+// expression (also inside function literals, marked "func:") and every call whose callee text is in `calls`,
+// as whitespace-normalised source — arguments included, so a changed callee, context, begin function,
+// acceptable function or passed-on body shows.
+func (e *emitter) c14Wiring(s *source, rel, goName, leanName string, calls ...string) {
+	fd := s.findFunc(rel, goName)
+	var out []string
+	if fd == nil {
+		e.errors = append(e.errors, fmt.Sprintf("function %s not found in %s", goName, rel))
+		e.stringList(leanName, "MISSING "+goName, out)
+		return
+	}
+	want := map[string]bool{}
+	for _, c := range calls {
+		want[c] = true
+	}
+	var walk func(n ast.Node, depth int)
+	walk = func(n ast.Node, depth int) {
+		ast.Inspect(n, func(m ast.Node) bool {
+			switch x := m.(type) {
+			case *ast.FuncLit:
+				if m != n {
+					walk(x.Body, depth+1)
+					return false
+				}
+			case *ast.ReturnStmt:
+				pre := strings.Repeat("func:", depth)
+				var rs []string
+				for _, r := range x.Results {
+					rs = append(rs, c14Flat(s.src(r)))
+				}
+				out = append(out, pre+"return "+strings.Join(rs, ", "))
+			case *ast.CallExpr:
+				if want[s.src(x.Fun)] {
+					out = append(out, strings.Repeat("func:", depth)+"call "+c14Flat(s.src(x)))
+				}
+			}
+			return true
+		})
+	}
+	walk(fd.Body, 0)
+	e.stringList(leanName, "returns and path calls of `"+goName+"` in "+rel, out)
+}
+
+// c14LitFields emits `field: value` of the composite literal of type typ built in a function (function-literal
+// values as "func"): which begin function and breaker a constructor installs.
+func (e *emitter) c14LitFields(s *source, rel, goName, typ, leanName string) {
+	fd := s.findFunc(rel, goName)
+	var out []string
+	if fd == nil {
+		e.errors = append(e.errors, fmt.Sprintf("function %s not found in %s", goName, rel))
+		e.stringList(leanName, "MISSING "+goName, out)
+		return
+	}
+	found := false
+	ast.Inspect(fd.Body, func(n ast.Node) bool {
+		cl, ok := n.(*ast.CompositeLit)
+		if !ok || cl.Type == nil || s.src(cl.Type) != typ {
+			return true
+		}
+		found = true
+		for _, el := range cl.Elts {
+			if kv, ok := el.(*ast.KeyValueExpr); ok {
+				v := c14Flat(s.src(kv.Value))
+				if _, isFn := kv.Value.(*ast.FuncLit); isFn {
+					v = "func"
+				}
+				out = append(out, s.src(kv.Key)+": "+v)
+			} else {
+				out = append(out, "positional: "+c14Flat(s.src(el)))
+			}
+		}
+		return false
+	})
+	if !found {
+		e.errors = append(e.errors, fmt.Sprintf("no %s literal in %s", typ, goName))
+	}
+	e.stringList(leanName, typ+" literal built by `"+goName+"` in "+rel, out)
+}
+
+// the value of a package-level `var name = …` (the sentinel errors)
+func (e *emitter) c14VarInit(s *source, rel, name, leanName string) {
+	f := s.file(rel)
+	val := ""
+	if f != nil {
+		for _, d := range f.Decls {
+			gd, ok := d.(*ast.GenDecl)
+			if !ok || gd.Tok != token.VAR {
+				continue
+			}
+			for _, sp := range gd.Specs {
+				vs := sp.(*ast.ValueSpec)
+				for i, n := range vs.Names {
+					if n.Name == name && i < len(vs.Values) {
+						val = c14Flat(s.src(vs.Values[i]))
+					}
+				}
+			}
+		}
+	}
+	if val == "" {
+		e.errors = append(e.errors, fmt.Sprintf("var %s not found in %s", name, rel))
+	}
+	e.printf("/-- initialiser of `%s` in %s -/\ndef %s : String := %s\n\n", name, rel, leanName, leanString(val))
+}
+
 func init() {
 	register("C14", func(s *source, e *emitter) {
 		const tx = "core/stores/sqlx/tx.go"
@@ -174,5 +284,20 @@ func init() {
 		// nested transactions are refused
 		e.shapeDef(s, tx, "txConn.Transact", "txConnTransactShape")
 		e.shapeDef(s, tx, "txConn.TransactCtx", "txConnTransactCtxShape")
+		// the wiring of every entry point down to transactOnConn: callee and arguments of each hop
+		e.c14Wiring(s, sc, "commonSqlConn.Transact", "wireTransact", "fn")
+		e.c14Wiring(s, sc, "commonSqlConn.TransactCtx", "wireTransactCtx", "db.brk.DoWithAcceptableCtx", "startSpan")
+		e.c14Wiring(s, tx, "transact", "wireTransactFn", "db.connProv")
+		e.c14Wiring(s, tx, "begin", "wireBegin", "db.Begin", "db.BeginTx")
+		e.c14Wiring(s, cc, "CachedConn.Transact", "wireCachedTransact")
+		e.c14Wiring(s, cc, "CachedConn.TransactCtx", "wireCachedTransactCtx")
+		e.c14Wiring(s, cc, "CachedConn.WithSession", "wireWithSession")
+		e.c14Wiring(s, sc, "NewSqlConnFromSession", "wireFromSession")
+		e.c14Wiring(s, tx, "txConn.Transact", "wireTxConnTransact")
+		e.c14Wiring(s, tx, "txConn.TransactCtx", "wireTxConnTransactCtx")
+		e.c14Wiring(s, tx, "txSession.ExecCtx", "wireTxExecCtx", "exec")
+		e.c14LitFields(s, sc, "NewSqlConn", "commonSqlConn", "litNewSqlConn")
+		e.c14LitFields(s, sc, "NewSqlConnFromDB", "commonSqlConn", "litNewSqlConnFromDB")
+		e.c14VarInit(s, "core/stores/sqlx/errors.go", "errCantNestTx", "errCantNestTxInit")
 	})
 }
